@@ -236,6 +236,13 @@ func c09Templates() []c09Tpl {
 		{"repeat-multi-16", `a = [0, 1, 2, 3, 4, 5, 6, 7, 8, 9, 10, 11, 12, 13, 14, 15]; b = a * 3000000; len(b)`, "mem", 100, 5000},
 		{"repeat-multi-string", `s = "0123456789" * 100; t = s * 1000000; len(t)`, "mem", 100, 5000},
 		{"repeat-multi-twice", `a = ([0] * 4000) * 4000; b = a * 10; len(b)`, "mem", 100, 5000},
+		// a long operand (itself within the budget) repeated a small number of times
+		{"repeat-long-string-15", `s = "x" * 60000000; t = s * 15; len(t)`, "mem", 100, 8000},
+		{"repeat-long-string-31", `s = "x" * 30000000; t = s * 31; len(t)`, "mem", 100, 8000},
+		{"repeat-long-string-8", `s = "x" * 100000000; t = s * 8; len(t)`, "mem", 100, 8000},
+		{"repeat-long-string-3", `s = "xy" * 100000000; t = s * 3; u = s * 2; len(t) + len(u)`, "mem", 100, 8000},
+		{"repeat-long-array-15", `a = [0] * 4000000; b = a * 15; len(b)`, "mem", 100, 8000},
+		{"repeat-long-array-3", `a = [0] * 10000000; b = a * 3; c = a * 2; len(b) + len(c)`, "mem", 100, 8000},
 		{"repeat-string-big-print", `println("x" * 50000000)`, "", 0, 0},
 		{"join-big", `a = ["xxxxxxxxxxxxxxxx"] * 10000000; len(join(a, ","))`, "", 0, 0},
 		{"runes-big", `len(runes("x" * 100000000))`, "", 0, 0},
@@ -281,6 +288,20 @@ func c09Templates() []c09Tpl {
 		{"recdefault-maps-4", `func f(n) {{"a": {"b": {"c": {"d": f(n + 1)}}}}}; f(0)`, "depth", 0, 60000},
 		{"recdefault-mixed", `func g(n) {[f(n + 1), 1]}; func f(n) {{"k": [g(n + 1)]}}; f(0)`, "depth", 0, 60000},
 		{"recdefault-index", `func f(n) {[[1]][f(n + 1)][0]}; f(0)`, "depth", 0, 60000},
+		// evaluators entered from deep inside a recursion (unjson evaluates in a state of its own): they continue at that depth
+		{"recdefault-unjson", `func f(n) {if n >= 45000 {unjson("func g(n) {g(n + 1)}; g(0)")} else {f(n + 1)}}; f(0)`, "depth", 0, 60000},
+		{"recdefault-eval", `func f(n) {if n >= 45000 {eval("func g(n) {g(n + 1)}; g(0)")} else {f(n + 1)}}; f(0)`, "depth", 0, 60000},
+		{"recdefault-unjson-literals", `func f(n) {if n >= 20000 {unjson("func g(n) {[[[[g(n + 1)]]]]}; g(0)")} else {[[[[f(n + 1)]]]]}}; f(0)`, "depth", 0, 60000},
+		// the deadline expires deep inside a recursion whose every level catches errors and goes on
+		{"catch-deep-2000", `func f(n) {if n > 2000 {for true {}}; catch(f(n + 1)); 1}; f(0)`, "", 0, 500},
+		{"catch-deep-4000", `func f(n) {if n > 4000 {for true {}}; catch(f(n + 1)); 1}; f(0)`, "", 0, 500},
+		{"catch-deep-9000", `func f(n) {if n > 9000 {for true {}}; r = catch(f(n + 1)); if r.err {n} else {r.value}}; f(0)`, "", 0, 500},
+		{"catch-deep-loop", `func f(n) {if n > 3000 {for true {}}; for 3 {catch(f(n + 1))}; 1}; f(0)`, "", 0, 500},
+		// results remembered by the function cache are memory too
+		{"memo-accumulate-4k", `func f(n) {"a" * 4000 + sprintf("%d", n)}; for i = 0:100000000 {f(i)}; 1`, "mem", 100, 20000},
+		{"memo-accumulate-arr", `func f(n) {[n, n + 1, n + 2, n + 3, n + 4, n + 5, n + 6]}; for i = 0:100000000 {f(i)}; 1`, "mem", 100, 20000},
+		// comparing values whose elements are shared: billions of element comparisons without a single allocation
+		{"native-compare-shared", `a = [0] * 1000000; b = [a] * 1200; b == b`, "", 100, 1000},
 		{"macro-loop", `m = macro(x) {for true {}}; m(1)`, "", 0, 0},
 		{"macro-rec", `m = macro(x) {func r(n) {r(n + 1)}; r(0)}; m(1)`, "", 0, 0},
 	}
